@@ -27,23 +27,52 @@ def _cls(inv):
     return inv.split("@", 1)[1] if "@" in inv else ""
 
 
-def _sig(prefixes):
-    """known-finding signature: the failing relation is the invariant part of the reported name (fixed by the
-    finding's `invariants` list), the input class must start with one of `prefixes` (setter/option[/pattern])"""
-    return lambda desc, events, inv: any(_cls(inv).startswith(p) for p in prefixes)
+# No known findings are open: F-C20-1, -3, -4, -5 were repaired in /repo (known/findings-mass.json, status "fixed",
+# suppresses nothing); any relation x input class that fails is a VIOLATION.
+SIGS = {}
 
 
-SIGS = {
-    # F-C20-1: set_mass / set_force_max(_, Mass) assign, then fail (mu() consistency check, missing mu)
-    "loco_set_mass_assigns_then_fails": _sig(["SetMass/None/", "SetForce/Mass/"]),
-    # F-C20-3: set_mu assigns self.mu, then its side effect fails
-    "loco_set_mu_assigns_then_fails": _sig(["SetMu/ForceMax/mass=U,", "SetMu/Mass/mass=K,mu=K,der=K", "SetMu/Mass/mass=K,mu=U,der=K",
-                                            "SetMu/Mass/mass=U,mu=K,der=K", "SetMu/Mass/mass=U,mu=U,der=K"]),
-    # F-C20-4: expunge_mass_fields leaves baseline / ballast behind
-    "loco_expunge_keeps_baseline": _sig(["Expunge//mass=K,mu=K,der=K", "Expunge//mass=K,mu=U,der=K",
-                                         "Expunge//mass=U,mu=K,der=K", "Expunge//mass=U,mu=U,der=K"]),
-    # F-C20-5: Locomotive::init does not run check_force_max
-    "loco_load_skips_force_check": _sig(["Load//mass=K,mu=K,"]),
+# ---- bin/selftest: one recorded field corrupted -> the trace spec must name the invariant (with the input class
+# of that call, as logged in `key`) at exactly that line
+def _corrupt(ev, pred, change, inv):
+    for i, e in enumerate(ev):
+        if e.get("ev") == "Call" and e.get("exact") and pred(e):
+            change(e)
+            return ev, i, [f"{inv}@{e['key']}"]
+    return None
+
+
+def _loco(ok=True, two=False):
+    return lambda e: e["ok"] == ok and "units" in e["st"] and (not two or len(e["st"]["units"]) == 2) and e["obs"]["cmass"] >= 0 \
+        and all(x >= 0 for x in e["obs"]["force"])
+
+
+def _comp(opt):
+    return lambda e: e["ok"] and "units" not in e["st"] and e["op"][0] == "SetMass" and e["op"][2] == opt and e["op"][1] >= 0 \
+        and e["st"]["spec"] >= 0
+
+
+def _other(e):
+    return 1 if e["op"][3] == 2 else 2
+
+
+CORRUPT = {
+    "rating_not_rescaled": lambda ev: _corrupt(ev, _comp("Extensive"), lambda e: e["st"].update(ext=e["st"]["ext"] * 2), "ComponentConsistent"),
+    "component_mass_getter": lambda ev: _corrupt(ev, _comp("Intensive"), lambda e: e["obs"].update(mass=e["obs"]["mass"] + 64), "ComponentConsistent"),
+    "intensive_touches_rating": lambda ev: _corrupt(ev, _comp("Intensive"),
+                                                    lambda e: e["st"].update(ext=e["st"]["ext"] * 2, spec=e["st"]["spec"] * 2), "OptionSemantics"),
+    "loco_mass_getter_errs": lambda ev: _corrupt(ev, _loco(), lambda e: e["obs"]["mass"].__setitem__(e["op"][3] - 1, -2), "LocoConsistent"),
+    "force_not_mu_mass_g": lambda ev: _corrupt(ev, lambda e: _loco()(e) and e["st"]["units"][e["op"][3] - 1]["mu"] >= 0 and e["st"]["units"][e["op"][3] - 1]["mass"] >= 0,
+                                               lambda e: (e["st"]["units"][e["op"][3] - 1].update(force=e["st"]["units"][e["op"][3] - 1]["force"] + 64),
+                                                          e["obs"]["force"].__setitem__(e["op"][3] - 1, e["obs"]["force"][e["op"][3] - 1] + 64)), "Traction"),
+    "consist_mass_skips_unit": lambda ev: _corrupt(ev, _loco(), lambda e: e["obs"].update(cmass=e["obs"]["cmass"] + 64), "ConsistMass"),
+    "consist_force_skips_unit": lambda ev: _corrupt(ev, _loco(), lambda e: e["obs"].update(cforce=e["obs"]["cforce"] + 64), "ConsistForce"),
+    "train_forgets_consist": lambda ev: _corrupt(ev, lambda e: _loco()(e) and e["obs"]["tstatic"] >= 0,
+                                                 lambda e: e["obs"].update(tstatic=e["obs"]["tstatic"] - e["obs"]["cmass"]), "TrainStatic"),
+    "rejected_call_changed_mu": lambda ev: _corrupt(ev, lambda e: not e["ok"] and "units" in e["st"],
+                                                    lambda e: (e["st"]["units"][e["op"][3] - 1].update(mu=48), e["obs"]["mu"].__setitem__(e["op"][3] - 1, 48)), "Atomic"),
+    "call_touches_other_unit": lambda ev: _corrupt(ev, _loco(two=True),
+                                                   lambda e: e["st"]["units"][_other(e) - 1].update(ball=64), "Frame"),
 }
 
 RULE = ("cases = every maximal setter sequence reached by TLC in the bounded MassLedger configs (components: set_mass x "
@@ -58,7 +87,7 @@ ASSUME = ["dyadic lattice (multiples of 1/64): every f64 operation of the setter
           "records holding an off-lattice value (only possible in the seeded long walks) are counted, not judged",
           "private fields are read and initial objects built through serde (no init()), getters through the public API",
           "after a rejected call, or an accepted call after which a getter of the addressed unit errs, the harness continues "
-          "from a clone of the pre-call object (one anomaly = one record)",
+          "from a clone of the pre-call object (one anomaly = one record; neither changes anything on the current tree)",
           "Traction is stated on the locomotive's own mass parameter: after an explicit ...ToNone option a mass derived from "
           "components does not bind force_max",
           "HybridLoco / DummyLoco units and RailVehicle / TrainState setters (all unconditional errors) are not driven"]
@@ -66,6 +95,8 @@ ASSUME = ["dyadic lattice (multiples of 1/64): every f64 operation of the setter
 
 def _vac(r):
     s = r["stats"]
+    if not r["models"]:          # --replay of a single case: nothing to balance
+        return None if s.get("harness", 0) == 0 else f"{s['harness']} harness errors"
     if s.get("calls", 0) == 0:
         return "no setter call was recorded"
     if s.get("accepted", 0) == 0 or s.get("rejected", 0) == 0:
@@ -85,15 +116,17 @@ GROUP = dict(
     name="mass", bin="avh_mass",
     model_spec="MCMassLedger.tla", trace_spec="MassLedgerTrace.tla", trace_cfg="MassLedgerTrace.cfg",
     models={
-        "quick": [dict(cfg="MCMassLedger_quickC.cfg", emit=True, max_emit=1500, workers=8, timeout=120),
-                  dict(cfg="MCMassLedger_quickL1.cfg", emit=True, max_emit=3000, workers=8, timeout=180, coverage=False),
-                  dict(cfg="MCMassLedger_quickL2.cfg", emit=True, max_emit=1500, workers=8, timeout=180)],
-        "thorough": [dict(cfg="MCMassLedger_thoroughC.cfg", emit=True, max_emit=15000, workers=8, timeout=900),
+        "quick": [dict(cfg="MCMassLedger_loads.cfg", emit=True, workers=4, timeout=120, may_be_zero=("Call",)),
+                  dict(cfg="MCMassLedger_quickC.cfg", may_be_zero=("Load",), emit=True, max_emit=3000, workers=8, timeout=120),
+                  dict(cfg="MCMassLedger_quickL1.cfg", emit=True, max_emit=6000, workers=8, timeout=180, coverage=False),
+                  dict(cfg="MCMassLedger_quickL2.cfg", may_be_zero=("Load",), emit=True, max_emit=3000, workers=8, timeout=180)],
+        "thorough": [dict(cfg="MCMassLedger_loads.cfg", emit=True, workers=4, timeout=120, may_be_zero=("Call",)),
+                     dict(cfg="MCMassLedger_thoroughC.cfg", may_be_zero=("Load",), emit=True, max_emit=15000, workers=8, timeout=900),
                      dict(cfg="MCMassLedger_thoroughL1.cfg", emit=True, max_emit=40000, workers=8, timeout=1800, may_be_zero=("Load",)),
-                     dict(cfg="MCMassLedger_thoroughL2.cfg", emit=True, max_emit=15000, workers=8, timeout=1800),
+                     dict(cfg="MCMassLedger_thoroughL2.cfg", may_be_zero=("Load",), emit=True, max_emit=15000, workers=8, timeout=1800),
                      dict(cfg="MCMassLedger_thoroughL4.cfg", emit=False, workers=8, timeout=1800, may_be_zero=("Load",))],
     },
-    gen_n={"quick": 500, "thorough": 10000},
+    gen_n={"quick": 1000, "thorough": 10000},
     per_case_ms=20000,
     nontrivial=nontrivial,
     rule=RULE,
@@ -101,10 +134,16 @@ GROUP = dict(
         "C20": dict(invariants=NAMES, assumptions=ASSUME, exhaustive=False,
                     coverage_extra=lambda res: dict(
                         invariants_decided_by_tlc=BASE,
+                        failures_by_relation_and_input_class=(res.get("tags", {}).get("FAILCOUNTS") or [{}])[0],
                         invariant_naming="TLC reports <invariant>@<setter>/<option>/<known-ness pattern of the addressed object "
                                          "before the call> (or @State, @Load//<pattern>); known findings are filed under those names")),
     },
     sigs=SIGS,
+    # the code as it was before the repairs: TLC re-finds F-C20-1/-3 (Atomic), F-C20-4 (LocoConsistent), F-C20-5 (Traction)
+    fault_models=[dict(cfg="MCMassLedger_ascoded.cfg", expect=["Atomic"]),
+                  dict(cfg="MCMassLedger_ascoded_expunge.cfg", expect=["LocoConsistent"]),
+                  dict(cfg="MCMassLedger_ascoded_load.cfg", expect=["Traction"])],
+    corrupt=CORRUPT, selftest_cases=60,
     vacuity=_vac,
     harness_timeout={"quick": 120, "thorough": 1500},
     trace_timeout={"quick": 120, "thorough": 1500},
@@ -119,15 +158,16 @@ ENGINE = dict(name="MassLedger", path="specs/MassLedger.tla", serves_properties=
                              "(MassLedgerTrace.tla)")
 _NOTE = ("Trusted: TLC, serde's view of the private fields, the harness' Q-encoding (x64, force / g). Bounded: sequences of <= 3 calls "
          "(4 in the thorough model-only config), masses 1/2/4 kg, specific 1/2,1,2, mu 1/4,1/2, force/g 1/2,1,2, conventional and "
-         "battery-electric units, 1-2 units, three car mixes; seeded random walks of 5-9 calls beyond. Four genuine defects are filed "
-         "as known findings (F-C20-1, -3, -4, -5): all are locomotive-level (assign-then-fail setters, expunge, unchecked force_max "
-         "on load); any other relation x input class still fails the check.")
+         "battery-electric units, 1-2 units, three car mixes; seeded random walks of 5-9 calls beyond. Four genuine locomotive-level "
+         "defects found by this check (F-C20-1, -3, -4, -5: assign-then-fail setters, expunge keeping baseline/ballast, unchecked "
+         "force_max on load) were repaired in /repo; their inputs stay as regression cases and the pre-repair code is the fault "
+         "model of bin/selftest.")
 _TECH = "TLA+ spec + TLC model checking + spec->impl replay + TLC trace validation"
 MANIFEST = {
     "C20": dict(engine="MassLedger", design_ref="3 (C20)", technique=_TECH,
-                text="TLC checks that Level B (variant `repaired`: the coded statements committed only on success) implies the "
-                     "consistency, atomicity and option-semantics invariants on every reachable state of the lattice model, shows "
-                     "with variant `ascoded` that the code as written breaks Atomic (F-C20-1), emits every maximal setter sequence "
+                text="TLC checks that Level B (variant `repaired`: the setters as they are now) implies the "
+                     "consistency, atomicity and option-semantics invariants on every reachable state of the lattice model (variant "
+                     "`ascoded`, the pre-repair code, breaks Atomic / LocoConsistent / Traction), emits every maximal setter sequence "
                      "and every redundant-data file, and re-evaluates the same invariants on the fields and getter answers the "
                      "real FuelConverter / Generator / ReversibleEnergyStorage / Locomotive / Consist / TrainSimBuilder produced "
                      "after every call.",
